@@ -27,6 +27,8 @@ sys.path.insert(0, os.path.dirname(os.path.abspath(__file__)))
 import vlib  # noqa: E402
 
 MARKER = "zzmarkerzz"
+OTHER = "yyotheryy"
+DEV = "wwdevww"
 REPO = os.environ.get("VERIF_REPO", "/repo")
 GO_CLI = "/root/go/pkg/mod/golang.org/toolchain@v0.0.1-go1.23.6.linux-amd64/bin/go"
 HERE = os.path.dirname(os.path.abspath(__file__))
@@ -68,6 +70,11 @@ def cli_cases():
             cases.append({"scheme": scheme, "cmd": "apply", "current": "v1", "desired": "two", "args": ["--tx-mode", tx, "--auto-approve"]})
         for fmt in ("{{ sql . }}", '{{ sql . "  " }}'):
             cases.append({"scheme": scheme, "cmd": "inspect", "current": "v2", "desired": "v2", "args": ["--format", fmt]})
+        # schema diff between two connections bound to schemas of different names
+        for dev in ("", "schema", "realm"):
+            for cur, des in (("v1", "v2"), ("v2", "v1"), ("empty", "v2"), ("v2", "empty")):
+                cases.append({"scheme": scheme, "cmd": "diff", "current": cur, "desired": des, "dev": dev, "args": []})
+            cases.append({"scheme": scheme, "cmd": "diff", "current": "v1", "desired": "v2", "dev": dev, "args": ["--format", '{{ sql . "  " }}']})
     return cases
 
 
@@ -99,6 +106,27 @@ def judge_cli(ctx, case, o, verbose=False):
     ctx.count("cli:%s:%s:tx=%s%s" % (d, case["cmd"], tx, ":dry-run" if dry else ""))
     ctx.count("cli-executed-stmts:" + d, len(executed))
     detail = {"out": o["out"], "err": o.get("err"), "executed": executed, "apply_qualifier_options": o.get("options")}
+    if case["cmd"] == "diff":
+        # `schema diff --from <URL bound to zzmarkerzz> --to <URL bound to yyotheryy> [--dev-url …]`: the two
+        # connections are bound to one schema each, the printed plan moves the content of the first to
+        # the content of the second and must work on either: it names neither schema.
+        dev = case.get("dev") or "none"
+        pre = "cli|%s|schema diff|dev-url=%s|" % (d, dev)
+        ctx.count("cli:%s:diff:dev-url=%s" % (d, dev))
+        if o.get("err"):
+            ctx.violation(pre + "error", "`schema diff` between two schema-bound URLs failed: " + o["err"], case, detail)
+        elif "t_users" not in o["out"]:
+            ctx.inconclusive("cli-diff-no-output")
+        else:
+            ctx.count("cli-diff-printed:" + d)
+            low = o["out"].lower()
+            for name in (MARKER, OTHER, DEV):
+                if name in low:
+                    ctx.violation(pre + "marker-leak", "`schema diff` between URLs bound to the schemas %s and %s prints SQL that mentions the schema name %s" % (MARKER, OTHER, name), case, detail)
+                    break
+            if SCHEMA_STMT.search(o["out"]):
+                ctx.violation(pre + "schema-stmt", "`schema diff` between two schema-bound URLs prints a statement that creates/drops/alters a schema", case, detail)
+        return
     if case["cmd"] == "inspect":
         pre = "cli|%s|schema inspect|" % d
         if o.get("err") or "t_users" not in o["out"]:
@@ -232,10 +260,13 @@ def main():
             sys.exit(2)
     for d in ("mysql", "postgres"):
         ctx.count("control:unbound-client-prints-marker:" + d, control.get(d, 0))
+        if ctx.counters.get("cli-diff-printed:" + d, 0) < 9 and not ctx.violations():
+            sys.stderr.write("c16.py: `schema diff` through the CLI probe printed too few plans for %s\n" % d)
+            sys.exit(2)
         if not control.get(d) and not ctx.violations():
             sys.stderr.write("c16.py: control failed: the unbound %s client never printed the schema name\n" % d)
             sys.exit(2)
-    ctx.finish("real cmdlog `sql` template function (schema diff / schema inspect --format), compiled into the CLI module through a go overlay and driven with a plan-only mysql/postgres client bound to schema zzmarkerzz: one-schema change sets of the real differ (create, modify, drop) × templates {{ sql . }}, {{ sql . \"  \" }}, {{ sql . \"\\t\" }}, {{ sql . \"\" }}, default diff template ⇒ schema name absent, no schema statement, same statements modulo white space; two-schema sets ⇒ error; unbound client = control (schema name printed). Plus the real cobra tree (cmdapi.Root) on fake c16mysql:// / c16postgres:// URLs bound to the schema (real differs / planners / HCL codecs, ApplyChanges records the statements planned with the options the CLI passed): `schema apply` current {empty, v1, v2} -> desired × --tx-mode {file, none, default} × {--auto-approve, --dry-run}, and `schema inspect --format`: printed plan and every executed statement free of the schema name and of schema statements, dry-run executes nothing. distinct = distinct rendered text / (output, executed statements)",
+    ctx.finish("real cmdlog `sql` template function (schema diff / schema inspect --format), compiled into the CLI module through a go overlay and driven with a plan-only mysql/postgres client bound to schema zzmarkerzz: one-schema change sets of the real differ (create, modify, drop) × templates {{ sql . }}, {{ sql . \"  \" }}, {{ sql . \"\\t\" }}, {{ sql . \"\" }}, default diff template ⇒ schema name absent, no schema statement, same statements modulo white space; two-schema sets ⇒ error; unbound client = control (schema name printed). Plus the real cobra tree (cmdapi.Root) on fake c16mysql:// / c16postgres:// URLs bound to the schema (real differs / planners / HCL codecs, ApplyChanges records the statements planned with the options the CLI passed): `schema apply` current {empty, v1, v2} -> desired × --tx-mode {file, none, default} × {--auto-approve, --dry-run}, `schema diff --from <URL bound to zzmarkerzz> --to <URL bound to yyotheryy>` × --dev-url {absent, bound to a third schema, not bound to a schema} (printed SQL names none of the schemas), and `schema inspect --format`: printed plan and every executed statement free of the schema name and of schema statements, dry-run executes nothing. distinct = distinct rendered text / (output, executed statements)",
                {"records": len(recs)})
 
 
